@@ -189,6 +189,8 @@ func cmdGen(args []string) {
 		genMemio(r, out, *n)
 	case "block":
 		genBlock(r, out, *n, *per)
+	case "inject":
+		genInject(r, out, *n, *per)
 	default:
 		fmt.Fprintln(os.Stderr, "unknown gen kind", kind)
 		os.Exit(2)
